@@ -289,9 +289,8 @@ pub fn s5_bloom(d: &mut Driver, rep: &mut Report, rng: &mut Rng, n: usize, thoro
         let f = wp.create_filter(&flat, &offs);
         rep.case(&format!("filter {} {}", bits, hexlist(&keys)), true);
         rep.count("s5_create");
-        if !expect(d, rep, "S5 bloom", &format!("bloom_create {} {}", bits, hexlist(&keys)), &hex(&f)) {
-            continue;
-        }
+        // (members are judged on the implementation's own filter whether or not the model agrees with it)
+        let _ = expect(d, rep, "S5 bloom", &format!("bloom_create {} {}", bits, hexlist(&keys)), &hex(&f));
         // membership: every key (with a reader of different bits_per_key), plus non-members
         let rp = BloomPolicy::new(rng.below(65) as u32);
         let mut probes: Vec<Vec<u8>> = keys.iter().take(20).cloned().collect();
@@ -433,11 +432,21 @@ pub fn s6_filterblock(d: &mut Driver, rep: &mut Report, rng: &mut Rng, n: usize)
         rep.case(&req, true);
         rep.count(if imp.is_ok() { "s6_build_ok" } else { "s6_build_panic" });
         rep.count(&format!("s6_blocks_{}", blocks.len()));
-        if !expect(d, rep, "S6 filterblock", &req, &imp_s) {
-            continue;
-        }
+        // the judge runs on the implementation's own block whether or not the model agrees with it
+        let agree = expect(d, rep, "S6 filterblock", &req, &imp_s);
         if let Ok(blk) = imp {
             if !legal {
+                continue;
+            }
+            if !agree {
+                for (off, keys) in blocks.iter() {
+                    for k in keys {
+                        let m = fb_match_impl(&pol, &blk, *off, k);
+                        if m != "ok true" {
+                            rep.judge_fail(J::obj(vec![("stream", J::s("S6 filterblock")), ("what", J::s("filter block denies a key added to the block at this offset")), ("policy", J::s(&pol.name())), ("events", J::s(&fb_events_str(&evs))), ("offset", J::N(*off as i64)), ("key", J::s(&hex(k))), ("impl", J::s(&m))]));
+                        }
+                    }
+                }
                 continue;
             }
             // every key of every block must match at its block's offset; other probes are compared only
